@@ -46,7 +46,8 @@ def specOpen : FileState → Res ShmErr
 def specValid (st : FileState) : Bool := (specOpen st).isOk
 
 /-- a header the readers accept on a file that ends before byte 72: the daemon takes such a file
-    over in place and never extends it -/
+    over in place after growing it to 72 bytes with zeros (classification, used for tags and for the
+    byte-exact clause of `HoldsSeg`) -/
 def truncatedValid : FileState → Bool
   | .file bs => validBytes bs && decide (bs.length < SEGMENT_SIZE)
   | _ => false
@@ -71,20 +72,34 @@ def priorLen : FileState → Nat
 def priorSegsize : FileState → Nat
   | .file bs => (parseHeader bs).segsize | _ => 0
 
-/-- the repair clause is evaluated for every prior state but a directory (start-up is refused with
-    EISDIR) and a truncated-valid file (the record is not in the file; what a reader's mapping shows
-    past the end of the file is not observed) -/
-def segApplicable (st : FileState) : Bool := decide (st ≠ .directory) && !truncatedValid st
+def priorGeneration : FileState → Nat
+  | .file bs => (parseHeader bs).generation | _ => 0
+/-- the first twelve bytes (magic number, declared size): never stored to on a take-over -/
+def priorHead : FileState → Bytes
+  | .file bs => slice bs 0 12 | _ => []
 
+/-- the repair clause is evaluated for every prior state but a directory (start-up is refused with
+    EISDIR) -/
+def segApplicable (st : FileState) : Bool := decide (st ≠ .directory)
+
+/-- start-up + first publication + a fresh reader: the reader reads back the record; the file was
+    re-created exactly when the prior state does not open, and is then the documented 72-byte image;
+    otherwise it was taken over in place: declared size unchanged, length unchanged but for a file that
+    ended before byte 72, which is now exactly 72 bytes long — its first twelve bytes (magic number,
+    declared size), version 1, the generation advanced by one publication, the record with its padding:
+    the same shape as a taken-over 72-byte file, and it is still the same inode (grown, not replaced). -/
 def HoldsSeg (st : FileState) (r : Record) : SegAns → Bool
   | .panic => false
   | .ioErr _ => false
-  | .done rc _ bs rd =>
+  | .done rc ino bs rd =>
     let pad := slice bs 68 4
     decide (rd = .record r) &&
     decide (rc = !specValid st) &&
     (if rc then decide (bs = encodeSegmentP ⟨MAGIC0, MAGIC1, SEGMENT_SIZE, 1, 2⟩ r pad ∧ bs.length = SEGMENT_SIZE)
-     else decide (bs.length = priorLen st ∧ (parseHeader bs).segsize = priorSegsize st))
+     else decide (bs.length = max (priorLen st) SEGMENT_SIZE ∧ (parseHeader bs).segsize = priorSegsize st) &&
+          (!truncatedValid st || ino &&
+            decide (bs = priorHead st ++ encU16 1 ++ encU16 (genFinish (genStart (priorGeneration st))) ++
+                         encodeRecordP r pad)))
 
 /-- the model's own answer to a `seg` request -/
 def modelSeg (st : FileState) (r : Record) (pad : Bytes) : SegAns :=
